@@ -348,9 +348,12 @@ func exchange(c *fw.Ctx, ctx context.Context, conn *websocket.Conn, mc *memConn,
 	if len(fails) > 0 {
 		return fails
 	}
-	for i, msg := range c14Msgs {
+	// between the first and the second message the peer sends a tiny message that it does
+	// not compress (RSV1 clear): it is not part of either side's compression history
+	p2l := [][]byte{c14Msgs[0], []byte("ok"), c14Msgs[1], c14Msgs[2]}
+	for i, msg := range p2l {
 		f := pmd.Frame{Fin: true, Opcode: pmd.OpText, Payload: msg, Masked: !libIsClient, MaskKey: [4]byte{0x12, 0x34 + byte(i), 0x56, 0x78}}
-		if agreed != nil {
+		if agreed != nil && i != 1 {
 			// the first message ends with a final deflate block (RFC 7692 7.2.3.4); the
 			// later ones repeat its content, i.e. refer back to it if the context is kept
 			compress := snd.Compress
